@@ -22,6 +22,8 @@ impl SchemaMut {
 		let mut state = WriteCanonicalFormState {
 			w: ErrorConversionWriter(Rabin::default()),
 			named_type_written: vec![false; self.nodes.len()],
+			unnamed_type_being_written: vec![0; self.nodes.len()],
+			n_named_types_written: 0,
 		};
 		state.write_canonical_form(self, SchemaKey::from_idx(0))?;
 		Ok(state.w.0.finish())
@@ -45,6 +47,12 @@ impl SchemaMut {
 struct WriteCanonicalFormState<W> {
 	w: ErrorConversionWriter<W>,
 	named_type_written: Vec<bool>,
+	/// Used to detect cycles that can't be broken by writing the name of a named
+	/// type (these can't be written): for every unnamed type that we are
+	/// currently writing, `1 + n_named_types_written` at the time we started
+	/// writing it (`0` otherwise)
+	unnamed_type_being_written: Vec<usize>,
+	n_named_types_written: usize,
 }
 
 impl<W: Write> WriteCanonicalFormState<W> {
@@ -67,6 +75,7 @@ impl<W: Write> WriteCanonicalFormState<W> {
 				Ok(match &mut state.named_type_written[key.idx] {
 					b @ false => {
 						*b = true;
+						state.n_named_types_written += 1;
 						true
 					}
 					true => {
@@ -77,6 +86,25 @@ impl<W: Write> WriteCanonicalFormState<W> {
 					}
 				})
 			};
+
+		let is_unnamed_container = matches!(
+			node.type_,
+			RegularType::Union(_) | RegularType::Array(_) | RegularType::Map(_)
+		);
+		let mut previous_being_written = 0;
+		if is_unnamed_container {
+			previous_being_written = std::mem::replace(
+				&mut self.unnamed_type_being_written[key.idx],
+				self.n_named_types_written + 1,
+			);
+			if previous_being_written > self.n_named_types_written {
+				// We came back to this node without having fully written any additional
+				// named type, so this would never end
+				return Err(SchemaError::new(
+					"Schema contains a cycle that can't be avoided using named references",
+				));
+			}
+		}
 
 		// In PCF, logical types are completely ignored
 		// https://issues.apache.org/jira/browse/AVRO-1721
@@ -175,6 +203,9 @@ impl<W: Write> WriteCanonicalFormState<W> {
 					self.w.write_str("]}")?;
 				}
 			}
+		}
+		if is_unnamed_container {
+			self.unnamed_type_being_written[key.idx] = previous_being_written;
 		}
 		Ok(())
 	}
